@@ -154,11 +154,16 @@ class ImplPool:
                 r['_first_attempt'] = results[i].get('err')
                 results[i] = r
         if self.retry_timeouts:
-            again = [i for i, r in enumerate(results) if r.get('err') == 'Timeout']
-            if again:
+            # up to two more attempts (the CPython Pool.terminate race that makes a raising imap call hang has a
+            # small probability per call; the same task hanging three times in a row is a hang of the code)
+            for attempt in (2, 3):
+                again = [i for i, r in enumerate(results) if r.get('err') == 'Timeout']
+                if not again:
+                    break
                 second = self._map([tasks[i] for i in again], timeout)
                 for i, r in zip(again, second):
                     r['_first_attempt'] = 'Timeout'
+                    r['_attempts'] = attempt
                     results[i] = r
                     if r.get('err') != 'Timeout':
                         self.timeouts_retried += 1
